@@ -35,7 +35,7 @@ MODELLED_HEADS = ("debounce", "throttle", "delay", "observeon")
 def modelled(case):
     pipe = case.field("pipe")[0]
     return (isinstance(pipe, list) and pipe[0] in MODELLED_HEADS and pipe[-1] == ["hot", "0"]
-            and case.field("unit") is None)
+            and case.field("unit") is None and case.field("pyield") is None)
 
 
 def E(v):
@@ -156,6 +156,11 @@ def sync_cases(tier, seed):
                          (em(0, ["n", "1"]), ["unsub"]), (["unsub"], em(0, ["n", "1"]))):
                 for k in range(0, 9):
                     out.append(mk(pipe, pre + [["par", str(k), a, b], em(0, ["n", "8"]), em(0, "c")], "coop-sync"))
+    # every other case: the subscriber's callback is itself a yield point (field `pyield`), so the second thread
+    # can run while the first is INSIDE the downstream call (a cell released around that call shows here)
+    for i, c in enumerate(out):
+        if i % 2:
+            c.fields = [("pyield", ["1"])] + c.fields
     return out
 
 
